@@ -93,8 +93,8 @@ func (e *c03env) doAppend(dst, src *mon.View, caseID string, d map[string]any, s
 
 func runC03(c *core.Ctx) {
 	chans := []int{1, 2, 3, 4, 5, 6, 7, 8}
-	maxL := c.Pick(3, 5)
-	maxK := c.Pick(5, 8)
+	maxL := c.Pick(3, 6)
+	maxK := c.Pick(5, 10)
 	n := 0
 	for _, t := range dyn.Types[:dyn.NBuiltin] {
 		for _, ch := range chans {
@@ -126,7 +126,7 @@ func runC03(c *core.Ctx) {
 	}
 	// chains of appends, seeded
 	rnd := c.Rand(3)
-	for i := 0; i < c.Pick(400, 8000); i++ {
+	for i := 0; i < c.Pick(400, 40000); i++ {
 		caseID := fmt.Sprintf("chain/%d", i)
 		if !c.Want(caseID) {
 			continue
